@@ -128,6 +128,9 @@ Record WT (cf : cfg) : Prop := {
       /\ okc (cur (gettc cf t)) (gh (gettc cf t)) (fun _ g' => prog_ok (rest (gettc cf t)) g');
   wt_unstarted : forall t, t < length (tc cf) -> started (getth (ms cf) t) = false ->
       cur (gettc cf t) = Ret tt /\ gh (gettc cf t) = g_child (kof t) /\ prog_ok (rest (gettc cf t)) (g_child (kof t));
+  (* the programs of this semantics move handles; nobody lends one by reference (Mach.ALend is covered by the machine
+     theorems, not by a typing rule) *)
+  wt_noloan : forall u, lend (getth (ms cf) u) = 0;
 }.
 
 (* ---------- helpers ---------- *)
@@ -154,33 +157,36 @@ Qed.
 Definition estep_post (t : nat) (s : st) (s' : st) (c' : cmd unit) (g' : ghost) (Q : unit -> ghost -> Prop) : Prop :=
   Inv s' /\ okc c' g' Q /\ agree (getth s' t) g' /\ length (ths s') = length (ths s)
   /\ started (getth s' t) = true
-  /\ forall u, u <> t -> getth s' u = getth s u.
+  /\ (forall u, u <> t -> getth s' u = getth s u)
+  /\ (forall u, lend (getth s' u) = lend (getth s u)).
 
 Lemma post_silent t s c' g' Q :
   Inv s -> started (getth s t) = true -> okc c' g' Q -> agree (getth s t) g' -> estep_post t s s c' g' Q.
 Proof. intros. unfold estep_post. auto 10. Qed.
 
 Lemma post_mach t s a s' c' g' Q :
-  Inv s -> step s t a = Ok s' -> (forall c k, a <> ASpawn c k) ->
+  Inv s -> step s t a = Ok s' -> second a = None ->
   okc c' g' Q -> (act_spec s t a s' -> agree (getth s' t) g') -> estep_post t s s' c' g' Q.
 Proof.
-  intros I Hs Hns Hok Hag. destruct (step_spec s t a s' Hs) as (Ht & Hst & Hst' & Hlen & Hoth & Hspec).
+  intros I Hs Hns Hok Hag. destruct (step_spec s t a s' Hs) as (Ht & Hst & Hst' & Hlen & Hoth & Hlendt & Hspec).
+  assert (Hoth' : forall u, u <> t -> getth s' u = getth s u) by (intros u Hu; apply Hoth; [exact Hu|rewrite Hns; discriminate]).
   unfold estep_post. split; [eapply pres; eauto|]. split; [exact Hok|]. split; [apply Hag; exact Hspec|].
-  split; [exact Hlen|]. split; [exact Hst'|]. intros u Hu. apply Hoth; [exact Hu|]. intros c k E. exfalso. exact (Hns c k E).
+  split; [exact Hlen|]. split; [exact Hst'|]. split; [exact Hoth'|].
+  intros u. destruct (Nat.eq_dec u t) as [->|Hu]; [exact Hlendt|rewrite Hoth' by exact Hu; reflexivity].
 Qed.
 
 Lemma read_post t s s' c' g Q :
   Inv s -> read_step s t s' -> okc c' g Q -> agree (getth s t) g -> estep_post t s s' c' g Q.
 Proof.
   intros I [Hs|Hs] Hok Hag.
-  - eapply post_mach; eauto; [discriminate|]. intros (_ & Hl). eapply agree_same_local; eauto.
-  - eapply post_mach; eauto; [discriminate|]. intros (_ & Hl). eapply agree_same_local; eauto.
+  - eapply post_mach; [exact I|exact Hs|reflexivity|exact Hok|]. intros (_ & Hl). eapply agree_same_local; eauto.
+  - eapply post_mach; [exact I|exact Hs|reflexivity|exact Hok|]. intros (_ & Hl). eapply agree_same_local; eauto.
 Qed.
 
 Lemma write_post t s s' c' g Q :
   Inv s -> step s t AWrite = Ok s' -> okc c' g Q -> agree (getth s t) g -> estep_post t s s' c' g Q.
 Proof.
-  intros I Hs Hok Hag. eapply post_mach; eauto; [discriminate|]. intros (_ & Hl). eapply agree_same_local; eauto.
+  intros I Hs Hok Hag. eapply post_mach; [exact I|exact Hs|reflexivity|exact Hok|]. intros (_ & Hl). eapply agree_same_local; eauto.
 Qed.
 
 (* ---------- every event step preserves the typing ---------- *)
@@ -196,7 +202,7 @@ Proof.
   - (* realloc b0 *) destruct Hok as (_ & K2). eapply write_post; [exact I|eassumption|apply K2|exact Hag].
   - (* dealloc, other *) destruct Hok as (_ & _ & K3). apply post_silent; [exact I|exact Hst|exact K3|].
     eapply agree_other; [exact Hag| | | |]; unfold g_dealloc; cbn [g_refs g_excl g_free g_fen]; rewrite ?setf_ne by assumption; auto.
-  - (* dealloc b0 *) destruct Hok as (_ & _ & K3). eapply post_mach; [exact I|eassumption|discriminate|exact K3|].
+  - (* dealloc b0 *) destruct Hok as (_ & _ & K3). eapply post_mach; [exact I|eassumption|reflexivity|exact K3|].
     intros (_ & R1 & R2 & R3 & R4 & R5). destruct Hag as (A1 & A2 & A3 & A4).
     unfold agree, g_dealloc; cbn [g_refs g_excl g_free g_fen]. rewrite setf_eq. rewrite R1, R2, R3, R4.
     split; [exact A1|]. split; [|split; [reflexivity|]].
@@ -204,7 +210,7 @@ Proof.
       destruct (g_excl g b0) eqn:He; [|reflexivity]. exfalso.
       assert (He' : excl (T s t) = true) by (unfold T; exact A2).
       destruct (J5 s I t He') as (_ & Hr1 & _).
-      match goal with Hs : step _ _ AFree = Ok _ |- _ => destruct (step_spec _ _ _ _ Hs) as (_ & _ & _ & _ & _ & Hm & _) end. cbn in Hm.
+      match goal with Hs : step _ _ AFree = Ok _ |- _ => destruct (step_spec _ _ _ _ Hs) as (_ & _ & _ & _ & _ & _ & Hm & _) end. cbn in Hm.
       apply (mustfree_no_refs s t t I Hm). rewrite Hr1. lia.
     + intros Hf. eapply cle_trans; [apply A4; exact Hf|exact R5].
   - (* hdr init, other *) destruct Hok as (_ & K2). apply post_silent; [exact I|exact Hst|exact K2|exact Hag].
@@ -213,19 +219,19 @@ Proof.
   - destruct Hok as (_ & K2). eapply read_post; [exact I|eassumption|apply K2|exact Hag].
   - (* inc, other *) destruct Hok as (_ & K2). apply post_silent; [exact I|exact Hst|apply K2|].
     eapply agree_other; [exact Hag| | | |]; unfold g_inc; cbn [g_refs g_excl g_free g_fen]; rewrite ?setf_ne by assumption; auto. discriminate.
-  - (* inc b0 *) destruct Hok as (_ & K2). eapply post_mach; [exact I|eassumption|discriminate|apply K2|].
+  - (* inc b0 *) destruct Hok as (_ & K2). eapply post_mach; [exact I|eassumption|reflexivity|apply K2|].
     intros (_ & R1 & R2 & R3). destruct Hag as (A1 & A2 & A3 & A4).
     unfold agree, g_inc; cbn [g_refs g_excl g_free g_fen]. rewrite !setf_eq. rewrite R1, R2, R3, A1.
     split; [reflexivity|]. split; [reflexivity|]. split; [exact A3|discriminate].
   - (* dec, other *) destruct Hok as (_ & _ & _ & K2). apply post_silent; [exact I|exact Hst|apply K2|].
     eapply agree_other; [exact Hag| | | |]; unfold g_dec; cbn [g_refs g_excl g_free g_fen]; rewrite ?setf_ne by assumption; auto. discriminate.
-  - (* dec b0 *) destruct Hok as (_ & _ & _ & K2). eapply post_mach; [exact I|eassumption|discriminate|apply K2|].
+  - (* dec b0 *) destruct Hok as (_ & _ & _ & K2). eapply post_mach; [exact I|eassumption|reflexivity|apply K2|].
     intros (_ & _ & R1 & R2 & R3). destruct Hag as (A1 & A2 & A3 & A4).
     unfold agree, g_dec; cbn [g_refs g_excl g_free g_fen]. rewrite !setf_eq. rewrite R1, R2, R3, A1, of_nat_eqb_1.
     split; [reflexivity|]. split; [reflexivity|]. split; [reflexivity|discriminate].
   - (* load, other *) destruct Hok as (_ & _ & K2). apply post_silent; [exact I|exact Hst|apply K2|].
     eapply agree_other; [exact Hag| | | |]; unfold g_load; cbn [g_refs g_excl g_free g_fen]; rewrite ?setf_ne by assumption; auto.
-  - (* load b0 *) destruct Hok as (_ & _ & K2). eapply post_mach; [exact I|eassumption|discriminate|apply K2|].
+  - (* load b0 *) destruct Hok as (_ & _ & K2). eapply post_mach; [exact I|eassumption|reflexivity|apply K2|].
     intros (_ & m' & Hm' & R1 & R2 & R3 & R4 & R5).
     match goal with Hn : nth_error _ _ = Some ?mm |- _ =>
       tryif constr_eq mm m' then fail else (assert (Em : m' = mm) by congruence) end. subst m'.
@@ -233,7 +239,7 @@ Proof.
     unfold agree, g_load; cbn [g_refs g_excl g_free g_fen]. rewrite !setf_eq. rewrite R1, R2, R3, R4, A1, A2, of_nat_eqb_1.
     split; [reflexivity|]. split; [reflexivity|]. split; [exact A3|].
     intros Hf. eapply cle_trans; [apply A4; exact Hf|exact R5].
-  - (* acquire fence *) eapply post_mach; [exact I|eassumption|discriminate|exact Hok|].
+  - (* acquire fence *) eapply post_mach; [exact I|eassumption|reflexivity|exact Hok|].
     intros (R1 & R2 & R3 & R4 & R5 & R6). destruct Hag as (A1 & A2 & A3 & A4).
     unfold agree, g_fence; cbn [g_refs g_excl g_free g_fen]. rewrite R1, R2, R3, R4.
     split; [exact A1|]. split; [exact A2|]. split; [exact A3|]. intros _. exact R6.
@@ -262,9 +268,10 @@ Lemma WT_update cf s' t x :
   (forall u, u <> t -> getth s' u = getth (ms cf) u
                       \/ (started (getth (ms cf) u) = false /\ started (getth s' u) = true
                           /\ agree (getth s' u) (g_child (kof u)))) ->
+  (forall u, lend (getth s' u) = 0) ->
   WT {| ms := s'; tc := upd (tc cf) t x |}.
 Proof.
-  intros [W1 W2 W3 W4] I' Hlen Ht Hst Hag Hok Hoth. split; cbn [ms].
+  intros [W1 W2 W3 W4 W5] I' Hlen Ht Hst Hag Hok Hoth Hnl. split; cbn [ms].
   - exact I'.
   - cbn [tc]. rewrite upd_length. congruence.
   - intros u Hu Hsu. cbn [tc] in Hu. rewrite upd_length in Hu.
@@ -277,22 +284,26 @@ Proof.
     destruct (Nat.eq_dec u t) as [->|Hne]; [congruence|].
     rewrite gettc_upd_ne by exact Hne. destruct (Hoth u Hne) as [E|(E1 & E2 & E3)]; [|congruence].
     rewrite E in Hsu. apply W4; assumption.
+  - exact Hnl.
 Qed.
 
 Theorem typed_step cf cf' : WT cf -> cstep cf cf' -> WT cf'.
 Proof.
-  intros W Hs. pose proof W as [W1 W2 W3 W4]. destruct Hs as [cf t s' c' g' Ht Hst He|cf t c r Ht Hst Hc Hr|cf t ch k r s' Ht Hst Hc Hr Hm|cf t ch r s' Ht Hst Hc Hr Hm].
+  intros W Hs. pose proof W as [W1 W2 W3 W4 W5]. destruct Hs as [cf t s' c' g' Ht Hst He|cf t c r Ht Hst Hc Hr|cf t ch k r s' Ht Hst Hc Hr Hm|cf t ch r s' Ht Hst Hc Hr Hm].
   - (* an event *)
     destruct (W3 t Ht Hst) as (Hag & Hok).
-    destruct (estep_sound t _ _ _ _ _ _ _ W1 Hst Hag Hok He) as (I' & Hok' & Hag' & Hlen & Hst' & Hoth).
-    apply WT_update; auto.
+    destruct (estep_sound t _ _ _ _ _ _ _ W1 Hst Hag Hok He) as (I' & Hok' & Hag' & Hlen & Hst' & Hoth & Hld).
+    apply WT_update; auto. intros u. rewrite Hld. apply W5.
   - (* next operation *)
     destruct (W3 t Ht Hst) as (Hag & Hok). rewrite Hc, Hr in Hok. cbn [okc prog_ok] in Hok.
     apply WT_update; auto.
   - (* spawn *)
     destruct (W3 t Ht Hst) as (Hag & Hok). rewrite Hc, Hr in Hok. cbn [okc prog_ok] in Hok. destruct Hok as (Hk & Hkof & Hrest).
-    destruct (step_spec _ _ _ _ Hm) as (_ & _ & Hst' & Hlen & Hoth & Hspec). cbn [act_spec] in Hspec.
-    destruct Hspec as (Hct & _ & Hsc & Hcl & R1 & R2 & R3 & R4 & R5 & C1 & C2 & C3 & C4 & C5).
+    destruct (step_spec _ _ _ _ Hm) as (_ & _ & Hst' & Hlen & Hoth & Hlendt & Hspec). cbn [act_spec] in Hspec.
+    destruct Hspec as (Hct & _ & Hsc & Hcl & R1 & R2 & R3 & R4 & R5 & C1 & C2 & C3 & C4 & C5 & C6).
+    assert (Hnl : forall u, lend (getth s' u) = 0).
+    { intros u. destruct (Nat.eq_dec u t) as [->|Hut]; [rewrite Hlendt; apply W5|].
+      destruct (Nat.eq_dec u ch) as [->|Huc]; [exact C6|]. rewrite Hoth; [apply W5|exact Hut|cbn [second]; congruence]. }
     apply WT_update; auto.
     + eapply pres; eauto.
     + cbn [gh]. destruct Hag as (A1 & A2 & A3 & A4). unfold agree, g_give; cbn [g_refs g_excl g_free g_fen].
@@ -301,14 +312,17 @@ Proof.
     + intros u Hu. destruct (Nat.eq_dec u ch) as [->|Hne].
       * right. split; [exact Hsc|]. split; [exact C5|]. unfold agree, g_child; cbn [g_refs g_excl g_free g_fen].
         rewrite Nat.eqb_refl. rewrite C1, C2, C3, Hkof. repeat split; auto. discriminate.
-      * left. apply Hoth; [exact Hu|]. intros c0 k0 E. injection E as <- <-. exact Hne.
+      * left. apply Hoth; [exact Hu|]. cbn [second]. intros [= E]. apply Hne. symmetry. exact E.
   - (* join *)
     destruct (W3 t Ht Hst) as (Hag & Hok). rewrite Hc, Hr in Hok. cbn [okc prog_ok] in Hok.
-    destruct (step_spec _ _ _ _ Hm) as (_ & _ & Hst' & Hlen & Hoth & Hspec). cbn [act_spec] in Hspec.
+    destruct (step_spec _ _ _ _ Hm) as (_ & _ & Hst' & Hlen & Hoth & Hlendt & Hspec). cbn [act_spec] in Hspec.
+    assert (Hnl : forall u, lend (getth s' u) = 0).
+    { intros u. destruct (Nat.eq_dec u t) as [->|Hut]; [rewrite Hlendt; apply W5|].
+      rewrite Hoth; [apply W5|exact Hut|cbn [second]; discriminate]. }
     apply WT_update; auto.
     + eapply pres; eauto.
     + cbn [gh]. eapply agree_same_local; eauto.
-    + intros u Hu. left. apply Hoth; [exact Hu|]. intros c0 k0 E. discriminate E.
+    + intros u Hu. left. apply Hoth; [exact Hu|]. cbn [second]. discriminate.
 Qed.
 
 Theorem typed_steps cf cf' : WT cf -> csteps cf cf' -> WT cf'.
@@ -340,11 +354,18 @@ Proof.
   open_step E Ht Hst. apply cleb_spec in Hf. rewrite Hm, Hf in E. cbn [negb andb] in E.
   destruct (Mach.live s); cbn [negb] in E; [|discriminate]. destruct (cleb (Wc s) _); discriminate.
 Qed.
-Lemma ok_write s t : Inv s -> t < length (ths s) -> started (getth s t) = true -> excl (getth s t) = true ->
-  exists s', step s t AWrite = Ok s'.
+Lemma noloan_lends_from s t : (forall u, lend (getth s u) = 0) -> lends_from s t = false.
 Proof.
-  intros I Ht Hst He. destruct (step s t AWrite) as [s'|e|] eqn:E; [eauto|exfalso; eapply safe; eauto|exfalso].
-  open_step E Ht Hst. rewrite He in E. cbn [negb] in E.
+  intros H. unfold lends_from. destruct (existsb _ (ths s)) eqn:E; [|reflexivity].
+  apply existsb_exists in E. destruct E as (x & Hin & Hx). apply Nat.eqb_eq in Hx.
+  destruct (In_nth _ _ dth Hin) as (n & _ & En). specialize (H n). unfold getth in H. rewrite En in H. congruence.
+Qed.
+
+Lemma ok_write s t : Inv s -> t < length (ths s) -> started (getth s t) = true -> excl (getth s t) = true ->
+  lends_from s t = false -> exists s', step s t AWrite = Ok s'.
+Proof.
+  intros I Ht Hst He Hlf. destruct (step s t AWrite) as [s'|e|] eqn:E; [eauto|exfalso; eapply safe; eauto|exfalso].
+  open_step E Ht Hst. rewrite He, Hlf in E. cbn [negb orb] in E.
   destruct (Mach.live s); cbn [negb] in E; [|discriminate]. destruct (_ && _); discriminate.
 Qed.
 Lemma ok_clone_step s t : Inv s -> t < length (ths s) -> started (getth s t) = true -> 0 < refs (getth s t) ->
@@ -355,10 +376,10 @@ Proof.
   destruct (Mach.live s); discriminate.
 Qed.
 Lemma ok_release s t : Inv s -> t < length (ths s) -> started (getth s t) = true -> 0 < refs (getth s t) ->
-  mustfree (getth s t) = false -> exists s', step s t ARelease = Ok s'.
+  mustfree (getth s t) = false -> lends_from s t = false -> exists s', step s t ARelease = Ok s'.
 Proof.
-  intros I Ht Hst Hr Hm. destruct (step s t ARelease) as [s'|e|] eqn:E; [eauto|exfalso; eapply safe; eauto|exfalso].
-  open_step E Ht Hst. destruct (Nat.ltb_spec 0 (refs (getth s t))); [|lia]. rewrite Hm in E. cbn [negb orb] in E.
+  intros I Ht Hst Hr Hm Hlf. destruct (step s t ARelease) as [s'|e|] eqn:E; [eauto|exfalso; eapply safe; eauto|exfalso].
+  open_step E Ht Hst. destruct (Nat.ltb_spec 0 (refs (getth s t))); [|lia]. rewrite Hm, Hlf in E. cbn [negb orb] in E.
   destruct (Mach.live s); discriminate.
 Qed.
 Lemma ok_free s t : Inv s -> t < length (ths s) -> started (getth s t) = true ->
@@ -369,15 +390,15 @@ Proof.
   destruct (Mach.live s); cbn [negb] in E; [|discriminate]. destruct (_ && _); discriminate.
 Qed.
 Lemma ok_probe0 s t : Inv s -> t < length (ths s) -> started (getth s t) = true -> 0 < refs (getth s t) ->
-  exists s' m, nth_error (msgs s) 0 = Some m /\ step s t (AProbe 0) = Ok s'.
+  lends_from s t = false -> exists s' m, nth_error (msgs s) 0 = Some m /\ step s t (AProbe 0) = Ok s'.
 Proof.
-  intros I Ht Hst Hr.
+  intros I Ht Hst Hr Hlf.
   assert (Hl : Mach.live s = true).
   { destruct (Mach.live s) eqn:Hl; [reflexivity|]. destruct (J6 s I Hl) as (H0 & _).
     pose proof (total_ge (ths s) t). unfold getth in Hr. lia. }
   destruct (J1 s I Hl) as (Hne & _). destruct (msgs s) as [|m l] eqn:Hms; [contradiction|].
   destruct (step s t (AProbe 0)) as [s'|e|] eqn:E; [exists s', m; auto|exfalso; eapply safe; eauto|exfalso].
-  open_step E Ht Hst. destruct (Nat.ltb_spec 0 (refs (getth s t))); [|lia]. cbn [negb] in E.
+  open_step E Ht Hst. destruct (Nat.ltb_spec 0 (refs (getth s t))); [|lia]. rewrite Hlf in E. cbn [negb orb] in E.
   rewrite Hl, Hms in E. cbn in E. discriminate.
 Qed.
 Lemma ok_fence s t : t < length (ths s) -> started (getth s t) = true -> exists s', step s t AFence = Ok s'.
@@ -402,14 +423,15 @@ Theorem typed_progress cf t :
   WT cf -> t < length (tc cf) -> started (getth (ms cf) t) = true -> is_event (cur (gettc cf t)) ->
   exists s' c' g', estep t (ms cf) (cur (gettc cf t)) (gh (gettc cf t)) s' c' g'.
 Proof.
-  intros [W1 W2 W3 W4] Ht Hst Hev. destruct (W3 t Ht Hst) as (Hag & Hok).
+  intros [W1 W2 W3 W4 W5] Ht Hst Hev. destruct (W3 t Ht Hst) as (Hag & Hok).
   assert (Ht' : t < length (ths (ms cf))) by congruence.
+  pose proof (noloan_lends_from (ms cf) t W5) as Hlf.
   set (s := ms cf) in *. set (g := gh (gettc cf t)) in *.
   destruct (cur (gettc cf t)) as [r| |n k|b o n k|b n k|b c k|b k|b a o k|b o k|o k|p off n k|p off bs k|p x y n k];
     cbn [is_event okc] in *; try contradiction.
   - (* alloc *) do 3 eexists. apply S_alloc_none.
   - (* realloc *) destruct Hok as (He & _). destruct (Nat.eq_dec b b0) as [->|Hne].
-    + destruct (ok_write s t W1 Ht' Hst) as (s' & E); [destruct Hag as (_ & A2 & _); congruence|].
+    + destruct (ok_write s t W1 Ht' Hst) as (s' & E); [destruct Hag as (_ & A2 & _); congruence|exact Hlf|].
       exists s', (k true), g. apply S_realloc. exact E.
     + exists s, (k true), g. apply S_realloc_o. exact Hne.
   - (* dealloc *) destruct Hok as (Hf & Hfen & _). destruct (Nat.eq_dec b b0) as [->|Hne].
@@ -417,7 +439,7 @@ Proof.
       destruct (ok_free s t W1 Ht' Hst) as (s' & E); [congruence|auto|]. do 3 eexists. apply S_dealloc. exact E.
     + do 3 eexists. apply S_dealloc_o. exact Hne.
   - (* hdr init *) destruct Hok as (He & _). destruct (Nat.eq_dec b b0) as [->|Hne].
-    + destruct (ok_write s t W1 Ht' Hst) as (s' & E); [destruct Hag as (_ & A2 & _); congruence|].
+    + destruct (ok_write s t W1 Ht' Hst) as (s' & E); [destruct Hag as (_ & A2 & _); congruence|exact Hlf|].
       do 3 eexists. apply S_hdrinit. exact E.
     + do 3 eexists. apply S_hdrinit_o. exact Hne.
   - (* hdr cap *) destruct Hok as (Hr & _). destruct (Nat.eq_dec b b0) as [->|Hne].
@@ -428,11 +450,11 @@ Proof.
       * destruct Hag as (A1 & _). destruct (ok_clone_step s t W1 Ht' Hst) as (s' & E); [lia|]. do 3 eexists. apply S_inc. exact E.
       * exists s, (k 0%N), (g_inc g b). apply S_inc_o. exact Hne.
     + destruct Hok as (Hr & Hf & _). destruct (Nat.eq_dec b b0) as [->|Hne].
-      * destruct Hag as (A1 & _ & A3 & _). destruct (ok_release s t W1 Ht' Hst) as (s' & E); [lia|congruence|].
+      * destruct Hag as (A1 & _ & A3 & _). destruct (ok_release s t W1 Ht' Hst) as (s' & E); [lia|congruence|exact Hlf|].
         do 3 eexists. apply S_dec. exact E.
       * exists s, (k 0%N), (g_dec g b 0%N). apply S_dec_o. exact Hne.
   - (* load *) destruct Hok as (Hr & _). destruct (Nat.eq_dec b b0) as [->|Hne].
-    + destruct Hag as (A1 & _). destruct (ok_probe0 s t W1 Ht' Hst) as (s' & m & Hm & E); [lia|].
+    + destruct Hag as (A1 & _). destruct (ok_probe0 s t W1 Ht' Hst) as (s' & m & Hm & E); [lia|exact Hlf|].
       do 3 eexists. eapply S_load; eauto.
     + exists s, (k 0%N), (g_load g b 0%N). apply S_load_o. exact Hne.
   - (* fence *) destruct (acq o) eqn:Ha.
@@ -444,11 +466,11 @@ Proof.
       * exists s, (k []), g. apply S_read_o. exact Hne.
     + exists s, (k []), g. apply S_read_static.
   - (* write *) destruct p as [b|sid]; [|contradiction]. destruct Hok as (He & _). destruct (Nat.eq_dec b b0) as [->|Hne].
-    + destruct (ok_write s t W1 Ht' Hst) as (s' & E); [destruct Hag as (_ & A2 & _); congruence|].
+    + destruct (ok_write s t W1 Ht' Hst) as (s' & E); [destruct Hag as (_ & A2 & _); congruence|exact Hlf|].
       do 3 eexists. apply S_write. exact E.
     + do 3 eexists. apply S_write_o. exact Hne.
   - (* move *) destruct p as [b|sid]; [|contradiction]. destruct Hok as (He & _). destruct (Nat.eq_dec b b0) as [->|Hne].
-    + destruct (ok_write s t W1 Ht' Hst) as (s' & E); [destruct Hag as (_ & A2 & _); congruence|].
+    + destruct (ok_write s t W1 Ht' Hst) as (s' & E); [destruct Hag as (_ & A2 & _); congruence|exact Hlf|].
       do 3 eexists. apply S_move. exact E.
     + do 3 eexists. apply S_move_o. exact Hne.
 Qed.
@@ -466,7 +488,7 @@ Theorem all_finished_released cf :
   WT cf -> (forall t, t < length (tc cf) -> started (getth (ms cf) t) = true -> finished (gettc cf t)) ->
   Mach.live (ms cf) = false.
 Proof.
-  intros [W1 W2 W3 W4] Hfin.
+  intros [W1 W2 W3 W4 W5] Hfin.
   assert (Hall : forall t, refs (getth (ms cf) t) = 0 /\ mustfree (getth (ms cf) t) = false).
   { intros t. destruct (started (getth (ms cf) t)) eqn:Hst.
     - destruct (Nat.lt_ge_cases t (length (tc cf))) as [Ht|Ht].
